@@ -1837,12 +1837,15 @@ def chained_logic(
 
 def optimize_or(left: SymbolicExpression, right: SymbolicExpression) -> OR:
 
-    left_vars = left._unique_variables_.filter(
-        lambda v: not isinstance(v.value, Literal)
-    )
-    right_vars = right._unique_variables_.filter(
-        lambda v: not isinstance(v.value, Literal)
-    )
+    def is_a_query_variable(v: HashedValue) -> bool:
+        # Literals and predicate/symbolic function invocations are not variables of the query, they are computed from
+        # the variables they take as arguments (which are themselves part of the unique variables).
+        return not isinstance(v.value, Literal) and not getattr(
+            v.value, "_predicate_type_", None
+        )
+
+    left_vars = left._unique_variables_.filter(is_a_query_variable)
+    right_vars = right._unique_variables_.filter(is_a_query_variable)
     if set(left_vars.unwrapped_values) == set(right_vars.unwrapped_values):
         return ElseIf(left, right)
     else:
